@@ -5,7 +5,10 @@ From Verif Require Import Common.Base C13.Model C13.Spec C13.Proofs4.
 From Coq Require Import String.
 
 Fixpoint strip_fields (fs : list (string * otv)) : list (string * tv) :=
-  match fs with [] => [] | (k, x) :: r => (k, o_strip x) :: strip_fields r end.
+  match fs with
+  | [] => []
+  | (k, x) :: r => match x with ONil _ => strip_fields r | _ => (k, o_strip x) :: strip_fields r end
+  end.
 Fixpoint enc_o_fields (fs : list (string * otv)) : list (string * cv) :=
   match fs with [] => [] | (k, x) :: r => if o_omitted x then enc_o_fields r else (k, encode_o x) :: enc_o_fields r end.
 
@@ -46,9 +49,11 @@ Section OtvInd.
   Context (P : otv -> Prop).
   Hypothesis HSc : forall o z s, P (OSc o z s).
   Hypothesis HRec : forall o fs, Forall (fun e => P (snd e)) fs -> P (ORec o fs).
+  Hypothesis HNil : forall o, P (ONil o).
   Fixpoint otv_ind' (v : otv) : P v :=
     match v with
     | OSc o z s => HSc o z s
+    | ONil o => HNil o
     | ORec o fs => HRec o fs ((fix go (l : list (string * otv)) : Forall (fun e => P (snd e)) l :=
                                  match l with [] => Forall_nil _ | x :: r => Forall_cons x (otv_ind' (snd x)) (go r) end) fs)
     end.
@@ -56,7 +61,7 @@ End OtvInd.
 
 Lemma encode_decode_l d : forall v, compat d v -> overlay (o_strip d) (Some (encode_o v)) = o_strip v.
 Proof.
-  induction d as [o z s|o fd IH] using otv_ind'; intros v Hc; inversion Hc as [| ? ? o' fv Hnd HF]; subst.
+  induction d as [o z s|o fd IH|o] using otv_ind'; intros v Hc; inversion Hc as [| ? ? o' fv Hnd HF]; subst.
   - reflexivity.
   - rewrite !o_strip_rec, encode_o_rec, overlay_rec. f_equal.
     set (m := Some (CMap (enc_o_fields fv))).
@@ -66,8 +71,13 @@ Proof.
                                    (o_omitted (snd v) = true -> o_strip (snd d) = o_strip (snd v))) fd' fv' ->
                incl fv' fv -> ov_fields (strip_fields fd') m = strip_fields fv').
     { intros fd' fv' HI HF'. induction HF' as [|[k dx] [k' vx] fd'' fv'' (Hk&Hcx&Hom) HF'' IHF]; intros Hincl; [reflexivity|].
-      cbn in Hk. destruct Hk. cbn [strip_fields ov_fields].
+      cbn in Hk. destruct Hk.
       inversion HI as [|? ? Hx HI']; subst. cbn in Hx, Hcx, Hom.
+      assert (Hd : strip_fields ((k, dx) :: fd'') = (k, o_strip dx) :: strip_fields fd'')
+        by (destruct dx; [reflexivity|reflexivity|inversion Hcx]).
+      assert (Hv : strip_fields ((k, vx) :: fv'') = (k, o_strip vx) :: strip_fields fv'')
+        by (destruct vx; [reflexivity|reflexivity|inversion Hcx]).
+      rewrite Hd, Hv. cbn [ov_fields].
       rewrite IHF; [|exact HI'|intros a Ha; apply Hincl; now right].
       f_equal. f_equal. unfold m. cbn [cv_lookup].
       rewrite (lookup_enc_o k vx fv Hnd (Hincl _ (or_introl eq_refl))).
@@ -90,4 +100,16 @@ Proof.
   - split; discriminate.
   - destruct (String.eqb k "enabled"); cbn; split; congruence.
   - destruct (String.eqb k "enabled"); cbn; split; congruence.
+Qed.
+
+(* a section that is nil in the typed configuration (and not omitempty) is written `key: null`;
+   decoding null keeps the default, so the section comes back with its defaults *)
+Lemma encode_decode_nil_refuted_l : exists d v,
+  encode_o v = CMap [("grpc"%string, CNull)] /\
+  tv_get ["grpc"%string] (o_strip v) = None /\
+  tv_get ["grpc"%string] (overlay (o_strip d) (Some (encode_o v))) <> None.
+Proof.
+  exists (ORec false [("grpc"%string, ORec false [("endpoint"%string, OSc false false "localhost:4317"%string)])]),
+         (ORec false [("grpc"%string, ONil false)]).
+  repeat split; vm_compute; discriminate.
 Qed.
